@@ -18,7 +18,7 @@ pub struct Case {
 }
 
 pub fn render(c: &Case) -> Vec<u32> {
-    let mut dt = DrawTarget::new(c.w, c.h);
+    let mut dt = blank_target(c.w, c.h);
     dt.set_transform(&to_transform(&c.xf));
     harmless_prelude(&mut dt, (c.w * 7 + c.h * 13 + c.path.ops.len() as i32 * 5 + c.style.cap as i32) as u32);
     dt.stroke(&c.path.build(), &Source::Solid(SolidSource { r: 255, g: 255, b: 255, a: 255 }), &c.style.build(), &DrawOptions::new());
